@@ -3,6 +3,7 @@
 set -e
 export CARGO_NET_OFFLINE=true
 cd /verif/sim && cargo build --release --offline
+( cd /verif/sim && CARGO_TARGET_DIR=/verif/sim/target-plain cargo build --profile plain --offline )
 /verif/sim/target/release/hpke-sim selftest
 for d in /verif/c17 /verif/c18; do
   if [ -x $d/setup.sh ]; then $d/setup.sh; fi
